@@ -342,6 +342,45 @@ func main() {
 			c.NonTrivial()
 		}
 	})
+	// members of every shape, three at a time: empty and single-vertex members between ordinary ones
+	memberMenu := []orb.LineString{
+		nil, {}, {{3, 3}}, {{0, 0}}, {{2.5, 3}, {3.5, 3}}, {{0, 3}, {3, 3}}, {{0, 0}, {1, 5}}, {{0, 3}, {3, 3}, {6, 3}, {3, 2.5}}, {{1, 1}, {5, 5}},
+	}
+	r.Explore("multi-members", fmt.Sprintf("every ordered triple of %d member shapes (nil, empty, single vertex inside / outside, inside, crossing, outside, crossing twice, through two corners), closed and open: MultiLineString is the concatenation of the members' clips; Geometry agrees", len(memberMenu)), mc.Opts{MaxDev: -1, Split: 2}, func(c *mc.Ctx) {
+		open := c.Bool()
+		var opts []clip.Option
+		if open {
+			opts = append(opts, clip.OpenBound(true))
+		}
+		var mls orb.MultiLineString
+		var want orb.MultiLineString
+		for i := 0; i < 3; i++ {
+			m := memberMenu[c.Choose(len(memberMenu))]
+			mls = append(mls, m.Clone())
+			want = append(want, clip.LineString(center, m.Clone(), opts...)...)
+		}
+		got := clip.MultiLineString(center, mls.Clone(), opts...)
+		if !got.Equal(want) {
+			c.Failf("multi", "MultiLineString(%v) = %v, want the concatenation of the members' clips %v (open=%v)", mls, got, want, open)
+		}
+		if !open {
+			g := clip.Geometry(center, mls.Clone())
+			var wg orb.Geometry
+			switch len(want) {
+			case 0:
+			case 1:
+				wg = want[0]
+			default:
+				wg = want
+			}
+			if !orb.Equal(g, wg) && !(g == nil && wg == nil) {
+				c.Failf("generic", "Geometry(%v) = %v, want %v", mls, g, wg)
+			}
+		}
+		if len(want) >= 2 {
+			c.NonTrivial()
+		}
+	})
 	r.Sample(map[string]interface{}{"box": "[2,4]^2", "open": false, "line": "[[0,3],[3,3],[6,0]]", "expected_portions": "[(2,3)-(3,3)], [(3,3)-(4,2)]"})
 	r.Sample(map[string]interface{}{"box": "[2,4]^2", "open": true, "line": "[[1,1],[5,5]] through two corners", "expected_portions": "[(2,2)-(4,4)]"})
 	r.Finish()
